@@ -5735,7 +5735,7 @@ def merge_parts(parts, reassign="voice"):
                         # new voice is computed as the sum of voices in staves in previous parts, plus the current
                         e.voice = voice_mapping[e.voice]
                     if isinstance(e, (GenericNote, Words, Direction, Clef)):
-                        e.staff = staff_mapping[e.staff]
+                        e.staff = staff_mapping[e.staff if e.staff is not None else 1]
                 new_part.add(e, start=new_start, end=new_end)
 
                 # new_part.add(copy.deepcopy(e), start=new_start, end=new_end)
